@@ -933,6 +933,53 @@ func EqualIss(a, b []Iss) bool {
 	return true
 }
 
+// EqualIssSpec compares observed issues with specified ones. The specification may leave the code of an
+// issue open (Code "*": the statements say that a Preprocess failure "becomes an issue", not with which
+// code), and an issue reported for a pointer node may carry the type "ptr" instead of the pointee's type
+// (zconst defines both; which one is reported is not part of any statement here).
+func EqualIssSpec(got, want []Iss) bool {
+	if len(got) != len(want) {
+		return false
+	}
+	g := append([]Iss(nil), got...)
+	w := append([]Iss(nil), want...)
+	used := make([]bool, len(g))
+	// exact matches first
+	for i := range w {
+		if w[i].Code == "*" {
+			continue
+		}
+		for j := range g {
+			if !used[j] && g[j] == w[i] {
+				used[j] = true
+				w[i].Path = "\x00matched"
+				break
+			}
+		}
+	}
+	for i := range w {
+		if w[i].Path == "\x00matched" {
+			continue
+		}
+		ok := false
+		for j := range g {
+			if used[j] || g[j].Path != w[i].Path || g[j].Msg != w[i].Msg {
+				continue
+			}
+			codeOK := w[i].Code == "*" || g[j].Code == w[i].Code
+			typeOK := g[j].Dtype == w[i].Dtype || (g[j].Dtype == "ptr" && (w[i].Code == "not_nil" || w[i].Code == "*"))
+			if codeOK && typeOK {
+				used[j], ok = true, true
+				break
+			}
+		}
+		if !ok {
+			return false
+		}
+	}
+	return true
+}
+
 func (e *Env) execOpts(x Exec) []z.ExecOption {
 	var out []z.ExecOption
 	for _, kv := range x.CtxVals {
